@@ -621,3 +621,11 @@ VARIANTS += [
       "        definitions = get_mypyfile_definitions(node)\n        if definitions and isinstance(definitions[0], mp_nodes.ExpressionStmt) and isinstance(definitions[0].expr, mp_nodes.StrExpr):\n            docstring = definitions[0].expr.value\n",
       None),
 ]
+VARIANTS += [
+    V("C07", "None recognised through its binding again", MH,
+      "        elif expr.name == \"None\":\n            # Like True and False, None is recognised by its name: in blocks mypy does not analyse it is not bound\n            return sds_types.NamedType(name=\"None\", qname=\"builtins.None\")\n        elif isinstance(expr.node, mp_nodes.Var):",
+      "        elif expr.name != \"None\" and isinstance(expr.node, mp_nodes.Var):", "C07.INFER-TABLE"),
+    V("C07", "inferred results share the first docstring entry of their type again", VIS,
+      "                            if hash(docstring.type) == hash(result_type) and not any(\n                                docstring is matched for matched in matched_docstrings\n                            ):",
+      "                            if hash(docstring.type) == hash(result_type):", "C07.RESULT-NAMES"),
+]
